@@ -593,6 +593,28 @@ impl Check for C08 {
             return wide_experiment(run - mats, g.next_u64(), mats * 6 + WIDE_CELLS);
         }
         if run < mats {
+            // the first experiments are FIXED (the same under every seed): ties of three and more, duplicated
+            // individuals, equal totals with different profiles, fewer configured cases than results
+            let fixed: [(Polarity, usize, &[&[i64]]); 10] = [
+                (Polarity::Score, 1, &[&[7], &[7], &[7]]),
+                (Polarity::Error, 0, &[&[1, 2], &[3, 4], &[5, 6], &[7, 8]]),
+                (Polarity::Score, 2, &[&[1, 0], &[0, 1], &[1, 0]]),
+                (Polarity::Error, 2, &[&[1, 0], &[0, 1], &[1, 0]]),
+                (Polarity::Score, 1, &[&[5, 1], &[5, 1], &[5, 2]]),
+                (Polarity::Error, 1, &[&[5, 1], &[5, 1], &[5, 2], &[6, 0]]),
+                (Polarity::Score, 2, &[&[5, 5], &[5, 5], &[0, 9]]),
+                (Polarity::Score, 3, &[&[2, 1, 0], &[0, 2, 1], &[1, 0, 2], &[1, 1, 1]]),
+                (Polarity::Error, 2, &[&[0, 0], &[0, 0], &[0, 0], &[0, 0], &[0, 1]]),
+                (Polarity::Score, 2, &[&[3, 3, 9], &[3, 3, 0], &[3, 2, 9], &[2, 3, 9]]),
+            ];
+            if let Some((polarity, c, rows)) = fixed.get(run as usize) {
+                return Sc::Dist {
+                    m: Matrix { polarity: *polarity, rows: rows.iter().map(|r| r.to_vec()).collect(), c: *c },
+                    trials: if tier == Tier::Quick { 60_000 } else { 400_000 },
+                    seed: g.next_u64(),
+                    cells_total: mats * 6 + WIDE_CELLS,
+                };
+            }
             return Sc::Dist {
                 m: gen_matrix(g, run % 4 != 3),
                 trials: if tier == Tier::Quick { 60_000 } else { 400_000 },
